@@ -2,6 +2,7 @@ import GaeaVerif.Sexp
 import GaeaVerif.Model.ResultStream
 import GaeaVerif.Model.LenEnc
 import GaeaVerif.Gen.Consts
+import GaeaVerif.Drv.C39Ses
 /-
   Driver for C39.  Requests:
 
@@ -16,41 +17,7 @@ import GaeaVerif.Gen.Consts
   BIN (binary protocol towards the client) does not exist in the model.
 -/
 namespace GaeaVerif.Drv.C39
-open GaeaVerif GaeaVerif.ResultStream
-
-def T : Nat := Gen.maxPayloadLen
-
-def rowSize (l : Nat) : Nat := 9 + LenEnc.lenEncIntSize l + l
-
-def addRows (size : Nat) : Nat → Nat → List Pkt → List Pkt
-  | 0, _, acc => acc
-  | n + 1, id, acc => addRows size n (id + 1) (.row ⟨id, size⟩ :: acc)
-
-/-- Packets of a script, reversed accumulator. -/
-def itemsRev : List Sexp → Nat → List Pkt → Option (List Pkt)
-  | [], _, acc => some acc
-  | .list [.atom "r", n, l] :: rest, id, acc =>
-    match n.asNat?, l.asNat? with
-    | some n, some l => itemsRev rest (id + n) (addRows (rowSize l) n id acc)
-    | _, _ => none
-  | .list [.atom "eof"] :: rest, id, acc => itemsRev rest id (.eof :: acc)
-  | .list [.atom "err"] :: rest, id, acc => itemsRev rest id (.err :: acc)
-  | _, _, _ => none
-
-def items? (e : Sexp) : Option (List Pkt) :=
-  match e with
-  | .list xs => (itemsRev xs 0 []).map List.reverse
-  | _ => none
-
-/-- `((lo hi) …)` of a list of rows: maximal runs of consecutive ids. -/
-def rangesRev : List Row → List (Nat × Nat) → List (Nat × Nat)
-  | [], acc => acc
-  | r :: rs, [] => rangesRev rs [(r.id, r.id)]
-  | r :: rs, (lo, hi) :: acc =>
-    if hi + 1 = r.id then rangesRev rs ((lo, r.id) :: acc) else rangesRev rs ((r.id, r.id) :: (lo, hi) :: acc)
-
-def fmtRanges (rows : List Row) : String :=
-  "(" ++ " ".intercalate ((rangesRev rows []).reverse.map fun (a, b) => s!"({a} {b})") ++ ")"
+open GaeaVerif GaeaVerif.ResultStream GaeaVerif.Drv.C39Ses
 
 def fmtFate : Fate → String
   | .closed => "closed"
@@ -64,6 +31,8 @@ def fmtFin : Fin → String
   | .eof => "eof"
   | .err k => s!"(err {fmtKind k})"
   | .closed => "closed"
+  | .stalled => "stalled"
+  | .hang => "hang"
   | .fuel => "fuel"
 
 /-- The harness's chunk loop over a DirectConnection: `Execute`, then
@@ -81,6 +50,7 @@ def dcChunks : Nat → Int → List Pkt → List String → String
     | .errBackend _ => fin "backend"
     | .errLimit _ => fin "limit"
     | .errLimitDrain => fin "limit"
+    | .stalled => fin "stalled"
 
 def shardKinds (rs : List Shard) : List String :=
   let has (p : Shard → Bool) := rs.any p
@@ -93,10 +63,12 @@ def shardFate : Shard → String
   | .errLimit f => fmtFate f
   | .errBackend f => fmtFate f
   | .errConn => "closed"
+  | .stalled => "closed"
   | .fuel => "fuel"
 
 def model (req : Sexp) : String :=
   match req with
+  | .list (.atom "ses" :: cfg :: stmts) => sesModel cfg stmts
   | .list [.atom "dc", m, it] =>
     match m.asInt?, items? it with
     | some m, some s => dcChunks (s.length + 1) m s []
@@ -189,6 +161,7 @@ def judgeDelivery (m : Int) (sp : Spec) (k : Nat) (asComplete : Bool) (chunked :
 
 def oracle (req out : Sexp) : String :=
   match req with
+  | .list (.atom "ses" :: cfg :: stmts) => sesOracle cfg stmts out
   | .list [.atom "un", m, _, it] =>
     match m.asInt?, specOf? it with
     | some m, some sp =>
